@@ -20,9 +20,15 @@ Proof. intros H. unfold links. apply in_or_app. left. apply in_oid. exact H. Qed
 Lemma lk_v_shape v x : v_shape v = Some x -> In x (links (CValue v)).
 Proof. intros H. unfold links. apply in_or_app. right. apply in_or_app. left. apply in_oid. exact H. Qed.
 Lemma lk_v_mp v : In (v_mp v) (links (CValue v)).
-Proof. unfold links. apply in_or_app. right. apply in_or_app. right. simpl. auto. Qed.
+Proof. unfold links. apply in_or_app. right. apply in_or_app. right. apply in_or_app. left. simpl. auto. Qed.
 Lemma lk_v_meta v : In (v_meta v) (links (CValue v)).
-Proof. unfold links. apply in_or_app. right. apply in_or_app. right. simpl. auto. Qed.
+Proof. unfold links. apply in_or_app. right. apply in_or_app. right. apply in_or_app. left. simpl. auto. Qed.
+Lemma lk_v_const v x : v_const v = Some x -> In x (links (CValue v)).
+Proof. intros H. unfold links. do 3 (apply in_or_app; right). apply in_oid. exact H. Qed.
+Lemma lk_a_graph a g : In g (attrv_ids (a_val a)) -> In g (links (CAttr a)).
+Proof. intros H. unfold links. apply in_or_app. left. exact H. Qed.
+Lemma lk_a_tensor a t : a_val a = ATensor t -> In t (links (CAttr a)).
+Proof. intros H. unfold links. rewrite H. simpl. auto. Qed.
 Lemma lk_n_input n i x : In i (n_inputs n) -> i = Some x -> In x (links (CNode n)).
 Proof.
   intros H E. unfold links. apply in_or_app. left. apply in_flat_map. exists i. split; [exact H|].
@@ -91,7 +97,7 @@ Section Stable.
   Lemma vcanon_st v : S v -> vcanon h' v = vcanon h v.
   Proof.
     intros H. unfold vcanon. rewrite Hag by exact H.
-    destruct (h v) as [[x| | | | | | | | | |]|] eqn:E; try reflexivity.
+    destruct (h v) as [[x| | | | | | | | | | |]|] eqn:E; try reflexivity.
     assert (HL := Hcl v _ H E).
     rewrite type_canon_st, shape_canon_st, dict_canon_st, meta_canon_st; try reflexivity.
     - apply HL, lk_v_meta.
@@ -110,11 +116,12 @@ Section Stable.
     S a -> (forall g, S g -> rec' g = rec g) -> acanon h' rec' a = acanon h rec a.
   Proof.
     intros H Hr. unfold acanon. rewrite Hag by exact H.
-    destruct (h a) as [[| | | | | | |x| | |]|] eqn:E; try reflexivity.
+    destruct (h a) as [[| | | | | | |x| | | |]|] eqn:E; try reflexivity.
     assert (HL := Hcl a _ H E). simpl in HL.
-    destruct (a_val x) as [t tok|t r|g|gs] eqn:Ev; try reflexivity.
+    destruct (a_val x) as [t tok|t r|g|gs|t] eqn:Ev; try reflexivity.
     - rewrite Hr; [reflexivity|]. apply HL. simpl. auto.
-    - f_equal. apply map_ext_in. intros g Hg. apply Hr. apply HL. simpl. exact Hg.
+    - f_equal. apply map_ext_in. intros g Hg. apply Hr. apply HL. simpl. rewrite app_nil_r. exact Hg.
+    - rewrite Hag; [reflexivity|]. apply HL. simpl. auto.
   Qed.
 
   Lemma dev_canon_st d : (forall y, In y (dev_ids d) -> S y) -> dev_canon h' d = dev_canon h d.
@@ -128,7 +135,7 @@ Section Stable.
     S n -> (forall g, S g -> rec' g = rec g) -> ncanon h' rec' n = ncanon h rec n.
   Proof.
     intros H Hr. unfold ncanon. rewrite Hag by exact H.
-    destruct (h n) as [[|x| | | | | | | | |]|] eqn:E; try reflexivity.
+    destruct (h n) as [[|x| | | | | | | | | |]|] eqn:E; try reflexivity.
     assert (HL := Hcl n _ H E).
     assert (Hin : forall i, In i (n_inputs x) -> iref h' i = iref h i).
     { intros i Hi. apply iref_st. intros y Hy. apply HL. eapply lk_n_input; eassumption. }
@@ -148,7 +155,7 @@ Section Stable.
     S g -> (forall x, S x -> rec' x = rec x) -> gcanon_body h' rec' g = gcanon_body h rec g.
   Proof.
     intros H Hr. unfold gcanon_body. rewrite Hag by exact H.
-    destruct (h g) as [[| |x| | | | | | | |]|] eqn:E; try reflexivity.
+    destruct (h g) as [[| |x| | | | | | | | |]|] eqn:E; try reflexivity.
     assert (HL := Hcl g _ H E).
     assert (H1 : forall v, In v (g_inputs x) -> vcanon h' v = vcanon h v).
     { intros v Hv. apply vcanon_st, HL, lk_g_input, Hv. }
@@ -172,7 +179,7 @@ Section Stable.
   Lemma fcanon_st fuel f : S f -> fcanon h' fuel f = fcanon h fuel f.
   Proof.
     intros H. unfold fcanon. rewrite Hag by exact H.
-    destruct (h f) as [[| | | | | | | | |x|]|] eqn:E; try reflexivity.
+    destruct (h f) as [[| | | | | | | | |x| |]|] eqn:E; try reflexivity.
     assert (HL := Hcl f _ H E). simpl in HL.
     rewrite gcanon_st by (apply HL; auto).
     assert (Hat : forall ka, In ka (f_attrs x) ->
@@ -184,7 +191,7 @@ Section Stable.
   Lemma mcanon_st fuel m : S m -> mcanon h' fuel m = mcanon h fuel m.
   Proof.
     intros H. unfold mcanon. rewrite Hag by exact H.
-    destruct (h m) as [[| | | | | | | | | |x]|] eqn:E; try reflexivity.
+    destruct (h m) as [[| | | | | | | | | |x |]|] eqn:E; try reflexivity.
     assert (HL := Hcl m _ H E). simpl in HL.
     rewrite gcanon_st by (apply HL; auto).
     assert (Hf : forall f, In f (md_funcs x) -> fcanon h' fuel f = fcanon h fuel f).
